@@ -162,6 +162,28 @@ func H_C17_conc() {
 			vfAssert(vfMapFieldIs(p, "clients", "X", "conn", RpcReadWriter(x)) != 0, "attached-connection-stays-in-the-table")
 			vfReach("checked")
 		})
+	case 6:
+		// a peer is attached while the proxy is serving and its connection's first read fails at once
+		// (in either order with the attachment): it is reported once and does not stay in the table
+		c := newZZConn()
+		added := false
+		go func() {
+			p.AddClient("C", c)
+			added = true
+		}()
+		go func() { c.rerr <- errors.New("broken from the start") }()
+		vfAtQuiescence(func() {
+			vfAssert(added, "AddClient-returns")
+			nC := 0
+			for _, d := range disc {
+				if d == "C" {
+					nC++
+				}
+			}
+			vfAssert(nC == 1, "failed-connection-reported-exactly-once")
+			vfAssert(vfMapHas(p, "clients", "C") != 1, "failed-connection-removed")
+			vfReach("checked")
+		})
 	default:
 		go func() {
 			a1.in <- zzEnv("A", "D", 100)
